@@ -4,12 +4,16 @@
     values far from overflow): Min, Max, Sum (M = unit: modify and push are the trait
     defaults = no-ops), MinAdd, MaxAdd, SumAdd (M = Z), Combinator U V.
     None of them overrides [update], so [update self l r = merge l r].
-    Two user items defined in the executor (harness/crates/c01/src/main.rs):
+    Three user items defined in the executor (harness/crates/c01/src/main.rs):
       Concat  — parts : Vec<String>, merge = concatenation of the part lists (not
                 commutative), modifier Assign s | Append s acting on every part,
                 lazy tag = composed modifier;
       Affine  — sum, len mod 998244353 with a lazy affine tag (a, b): x -> a*x + b
-                per element (Assign c = (0, c), Add c = (1, c); tags do not commute).
+                per element (Assign c = (0, c), Add c = (1, c); tags do not commute);
+      Flip    — ones, len, flip : bool with the ZERO-SIZED modifier type [()]:
+                [modify(&())] flips every bit of the range (ones = len - ones) and
+                toggles the pending flag, [push] hands a pending flip to both children.
+                A lazy item although [M = ()].
     For every item: [*_obs] (the observable value a query answer denotes), the value
     algebra [*_vmerge], [*_act], and [*_eqb] on full items (used by [model_check],
     which compares every field the implementation returned, lazy tags included). *)
@@ -134,3 +138,16 @@ Definition af_vmerge (a b : Z * Z) := ((fst a + fst b) mod PM, snd a + snd b).
 Definition af_act (m : Z * Z) (a : Z * Z) := ((fst m * fst a + snd m * snd a) mod PM, snd a).
 Definition af_eqb (a b : affine) :=
   (af_sum a =? af_sum b) && (af_len a =? af_len b) && (af_a a =? af_a b) && (af_b a =? af_b b).
+
+(** ---- Flip (user item): range bit-flip, modifier type [unit] but lazy ---- *)
+Record flip := FL { fl_ones : Z; fl_len : Z; fl_flip : bool }.
+Definition fl_new (b : Z) := FL b 1 false.
+Definition fl_default := FL 0 0 false.
+Definition fl_merge (l r : flip) := FL (fl_ones l + fl_ones r) (fl_len l + fl_len r) false.
+Definition fl_modify (x : flip) (_ : unit) := FL (fl_len x - fl_ones x) (fl_len x) (negb (fl_flip x)).
+Definition fl_push (x l r : flip) : flip * flip * flip :=
+  if fl_flip x then (FL (fl_ones x) (fl_len x) false, fl_modify l tt, fl_modify r tt) else (x, l, r).
+Definition fl_obs (x : flip) : Z * Z := (fl_ones x, fl_len x).
+Definition fl_act (_ : unit) (a : Z * Z) : Z * Z := (snd a - fst a, snd a).
+Definition fl_eqb (a b : flip) :=
+  (fl_ones a =? fl_ones b) && (fl_len a =? fl_len b) && Bool.eqb (fl_flip a) (fl_flip b).
